@@ -350,6 +350,45 @@ def plan_c10(ctx):
                   query(ctx, g + "-a", nq, prefix + A + post, group=g),
                   query(ctx, g + "-b", nq, prefix + B + post, group=g, gcheck="union"),
                   query(ctx, g + "-ba", nq, prefix + [["conde", [B, A]]] + post)])
+    plan_c10_fd(ctx)
+
+
+def plan_c10_fd(ctx):
+    """FD / CLP(Z) flavoured isolation cases: a shared constraint object in the prefix, branches that bind one or
+    several of its variables (a shared DistinctFd2Constraint is updated in place behind Rc::make_mut)."""
+    rng = ctx["rng"]
+    for i in range(T(ctx, 250, 5000)):
+        nv = rng.randint(2, 3)
+        vs = list(range(1, nv + 1))
+        lo, hi = rng.choice([(1, 3), (0, 2), (-2, 2)])
+        withdom = rng.random() < 0.7
+        prefix = [["dom", ["list", [["var", v] for v in vs]], ["itv", lo, hi]]] if withdom else []
+        prefix += [rng.choice([["distinctfd", ["list", [["var", v] for v in vs]]],
+                               ["distinctfd", ["list", [["var", vs[0]], ["num", lo], ["var", vs[1]]]]],
+                               gen.fd_constraint(rng, vs, lo, hi)]) for _ in range(rng.randint(1, 2))]
+        if not withdom:
+            prefix = [p for p in prefix if p[0] == "distinctfd"] or [["distinctfd", ["list", [["var", v] for v in vs]]]]
+
+        def branch():
+            gs = []
+            for _ in range(rng.randint(1, 2)):
+                r = rng.random()
+                if r < 0.5:
+                    k = rng.randint(2, nv)
+                    gs.append(["eq", ["list", [["var", v] for v in vs[:k]]], ["list", [["num", rng.randint(lo, hi)] for _ in range(k)]]])
+                elif r < 0.8:
+                    gs.append(["eq", ["var", rng.choice(vs)], ["num", rng.randint(lo, hi)]])
+                else:
+                    gs.append(gen.fd_constraint(rng, vs, lo, hi) if withdom else ["eq", ["var", vs[0]], ["var", vs[1]]])
+            return gs
+
+        A, B, C = branch(), branch(), branch()
+        g = "C10-fd%d" % i
+        add(ctx, [query(ctx, g + "-abc", nv, prefix + [["conde", [A, B, C]]], group=g),
+                  query(ctx, g + "-a", nv, prefix + A, group=g),
+                  query(ctx, g + "-b", nv, prefix + B, group=g),
+                  query(ctx, g + "-c", nv, prefix + C, group=g, gcheck="union"),
+                  query(ctx, g + "-cba", nv, prefix + [["conde", [C, B, A]]])])
 
 
 def plan_c11(ctx):
@@ -721,4 +760,85 @@ PROPS.update({
             "nontrivial": lambda c: True,
             "assumptions": ["operands and results within -4..6 (flow A window); isize overflow out of scope",
                             "TLC, Json/IOUtils, harness projectors"]},
+})
+
+
+# ----------------------------------------------------------------------------- C04
+
+def permute_program(goals, rng):
+    """A random permutation of every conjunction (goal list) and every disjunction (clause list)."""
+    out = []
+    for g in goals:
+        if g[0] in ("conde", "cond"):
+            cls = [permute_program(cl, rng) for cl in g[1]]
+            rng.shuffle(cls)
+            out.append([g[0], cls])
+        elif g[0] == "fresh":
+            out.append(["fresh", g[1], permute_program(g[2], rng)])
+        else:
+            out.append(g)
+    rng.shuffle(out)
+    return out
+
+
+def fd_nested_program(rng, nv, lo, hi):
+    vs = list(range(1, nv + 1))
+    goals = [["dom", ["var", v], gen.fd_domain(rng, lo, hi)] for v in vs]
+    goals += [gen.fd_constraint(rng, vs, lo, hi) for _ in range(rng.randint(1, 3))]
+    ncl = rng.randint(2, 3)
+    cls = []
+    for _ in range(ncl):
+        cl = [gen.fd_constraint(rng, vs, lo, hi) if rng.random() < 0.6 else ["eq", ["var", rng.choice(vs)], ["num", rng.randint(lo, hi)]]
+              for _ in range(rng.randint(1, 2))]
+        cls.append(cl)
+    goals.append(["conde", cls])
+    return goals
+
+
+def plan_c04(ctx):
+    rng = ctx["rng"]
+    # the design half: order-freedom of the store is Den / LabelExact over every posting order
+    mc(ctx, "tree", "MC_Tree", {"K": "3", "Sched": "{0}", "Tag": '"tree"', "Emit": "FALSE"}, TREE_INVS,
+       {"GoalsAfter": "TreeGoalsAfter", "Vals": "TreeVals"})
+    fd_mc(ctx, "fd2", {"Emit": "FALSE", "Sched": "{0}"})
+    P = T(ctx, 6, 12)
+    for i in range(T(ctx, 220, 4000)):
+        r = rng.random()
+        if r < 0.3:
+            nv = rng.randint(1, 4)
+            base = gen.flat_tree_program(rng, nv, rng.randint(2, 5), 2)
+        elif r < 0.55:
+            nv = rng.randint(1, 3)
+            base = gen.nested_tree_program(rng, nv, 2, rng.randint(3, 7))
+        elif r < 0.8:
+            nv = rng.randint(1, 3)
+            lo, hi = rng.choice([(-3, 3), (0, 4), (-5, 5)])
+            base = gen.fd_program(rng, nv, rng.randint(1, 3), lo, hi)
+        else:
+            nv = rng.randint(2, 3)
+            base = fd_nested_program(rng, nv, -3, 3)
+        g = "C04-g%d" % i
+        variants = [base]
+        if len(base) <= 3 and all(x[0] not in ("conde", "fresh") for x in base):
+            import itertools
+            variants = [list(p) for p in itertools.permutations(base)]
+        else:
+            variants += [permute_program(base, rng) for _ in range(P - 1)]
+        for j, body in enumerate(variants):
+            c = query(ctx, "%s-p%d" % (g, j), nv, body, group=g, after=1)
+            if j == len(variants) - 1:
+                c["gcheck"] = "same_bag"
+            add(ctx, [c])
+
+
+PROPS.update({
+    "C04": {"plan": plan_c04, "reasons": R_ANSWERS | {"group_bags_differ", "group_outcomes_differ"},
+            "rule": "terminating programs of equalities, disequalities, FD constraints, fresh, conjunction and disjunction; "
+                    "all permutations of conjunctions with <= 3 goals, otherwise 6 (thorough: 12) random permutations of "
+                    "every conjunction and every disjunction; every variant against the reference and all variants of a "
+                    "program against each other (multisets).  Flow A: Den / LabelExact of MC_Tree and MC_FD hold for every "
+                    "posting order.  Non-trivial: the program has >= 2 goals.",
+            "nontrivial": lambda c: len(c.get("body", [])) >= 2,
+            "assumptions": FD_ASSUME + ["answers compared as multisets of reified answers up to renaming and constraint-set "
+                                        "equivalence (ground-instance sets coincide with that for tree constraints)"]},
 })
